@@ -7,7 +7,7 @@
    account of kind Notary, is distinct from the NEO contract, the validators' address and every key's address; decidable,
    [cfg_wf_of_check]) and [blocks_ok] (no transaction is signed by the Notary contract: NotaryAssisted fee payment is
    not modelled). *)
-From NG Require Import Common.Tactics Tokens.Model Tokens.MapLemmas Tokens.Inv Tokens.NeoProofs Tokens.OpProofs Tokens.C05Theorems Tokens.CfgCheck.
+From NG Require Import Common.Tactics Tokens.Model Tokens.MapLemmas Tokens.Inv Tokens.NeoProofs Tokens.OpProofs Tokens.NotifLimit Tokens.C05Theorems Tokens.CfgCheck.
 Open Scope Z_scope.
 
 (* NEO total supply is exactly 100 000 000 and equals the sum of all NEO balances *)
@@ -75,6 +75,67 @@ Theorem C05_voted_keys_have_records : forall cfg, cfg_wf cfg -> forall bs, block
   forall a k, nvote (neo_acc (reach cfg bs) a) = Some k -> cpresent (cand_of (reach cfg bs) k) = true.
 Proof. exact voted_keys_have_records. Qed.
 Print Assumptions C05_voted_keys_have_records.
+
+(* A native token movement whose POST-EFFECT fails (Tokens/NotifLimit.v).  [OLim pre o post nacct]: a helper contract emits
+   pre notifications, the native method o (NEO / GAS transfer incl. deposit and registration by payment, vote) runs, the
+   helper emits post more; every Transfer / Vote / CandidateStateChanged event and every notification of the receiver's
+   onNEP17Payment counts, and the 513th of an execution fails (Echidna).  The theorems above hold for histories with such
+   transactions (they are transactions like any other).  Whichever notification fails -- before, inside or after the
+   native call -- the execution faults and NOTHING of what the native method did remains *)
+Theorem C05_post_effect_failure_faults : forall cfg st t pre o post nacct st' r,
+  t_op t = OLim pre o post nacct ->
+  run_lop cfg st t o = Some (st', r) ->
+  notif_limit < pre + lop_notifs cfg (L st) (L st') o r nacct + post ->
+  0 <= post ->
+  run_op cfg st t = None /\ exec_tx cfg st t = st.
+Proof. exact notification_failure_faults. Qed.
+Print Assumptions C05_post_effect_failure_faults.
+
+(* all or nothing: such an execution either faults with the state as it was or is the native method's own outcome
+   (answer and events included) -- never "moved without event", never "false although funds moved" *)
+Theorem C05_post_effect_all_or_nothing : forall cfg st t pre o post nacct,
+  t_op t = OLim pre o post nacct ->
+  (run_op cfg st t = None /\ exec_tx cfg st t = st) \/ run_op cfg st t = run_lop cfg st t o.
+Proof. exact no_partial_post_effect. Qed.
+Print Assumptions C05_post_effect_all_or_nothing.
+
+Theorem C05_post_effect_within_limit : forall cfg st t pre o post nacct,
+  t_op t = OLim pre o post nacct -> 0 <= pre -> 0 <= post ->
+  (forall st' r, run_lop cfg st t o = Some (st', r) -> pre + lop_notifs cfg (L st) (L st') o r nacct + post <= notif_limit) ->
+  run_op cfg st t = run_lop cfg st t o.
+Proof. exact notifications_within_limit. Qed.
+Print Assumptions C05_post_effect_within_limit.
+
+(* "report false and continue" refuted: if the transfer whose own event is the 513th notification dropped the event, kept
+   the balances and answered false, account 1 would be 5 GAS richer with no event (events_match_deltas broken) *)
+Theorem C05_swallowed_post_effect_refuted :
+  match run_lim_swallow nl_cfg nl_st 512 (LGasT 0 1 5 DNone) 7 (run_lop nl_cfg nl_st (nl_tx 512 (LGasT 0 1 5 DNone) 0) (LGasT 0 1 5 DNone)) with
+  | Some (st', answer) =>
+      answer = Some false
+      /\ bal GAS (L st') 1 - bal GAS (L nl_st) 1 = 5
+      /\ ev_net GAS 1 (l_events (L st')) - ev_net GAS 1 (l_events (L nl_st)) = 0
+      /\ P_ev GAS 1 (L st') <> P_ev GAS 1 (L nl_st)
+  | None => False
+  end.
+Proof. exact swallowed_post_effect_refuted. Qed.
+Print Assumptions C05_swallowed_post_effect_refuted.
+
+(* non-vacuity of the three theorems above on a reachable state: transfers as the 511th / 512th / 513th notification,
+   a NEO transfer whose GAS claim is the one that does not fit, the helper's notification after a transfer that fitted,
+   the receiver's callback exceeding the limit itself *)
+Example C05_post_effect_examples :
+  cfg_wf nl_cfg /\ blocks_ok nl_cfg nl_blocks
+  /\ exec_tx nl_cfg nl_st (nl_tx 512 (LGasT 0 1 5 DNone) 0) = nl_st
+  /\ run_op nl_cfg nl_st (nl_tx 511 (LGasT 0 1 5 DNone) 0) = run_lop nl_cfg nl_st (nl_tx 511 (LGasT 0 1 5 DNone) 0) (LGasT 0 1 5 DNone)
+  /\ gas_bal (exec_tx nl_cfg nl_st (nl_tx 511 (LGasT 0 1 5 DNone) 0)) 1 = gas_bal nl_st 1 + 5
+  /\ exec_tx nl_cfg nl_st (nl_tx 511 (LGasT 0 1 5 DNone) 1) = nl_st
+  /\ length (new_events (L nl_st) (L (exec_tx nl_cfg nl_st (nl_tx 0 (LNeoT 0 1 10) 0)))) = 2%nat
+  /\ exec_tx nl_cfg nl_st (nl_tx 511 (LNeoT 0 1 10) 0) = nl_st
+  /\ nbal (neo_acc (exec_tx nl_cfg nl_st (nl_tx 510 (LNeoT 0 1 10) 0)) 1) = 10
+  /\ exec_tx nl_cfg nl_st (nl_tx 0 (LGasT 0 7 600 DNone) 0) = nl_st
+  /\ gas_bal (exec_tx nl_cfg nl_st (nl_tx 0 (LGasT 0 7 1511 DNone) 0)) 7 = 1511
+  /\ exec_tx nl_cfg nl_st (nl_tx 1 (LGasT 0 7 1511 DNone) 0) = nl_st.
+Proof. exact post_effect_examples. Qed.
 
 (* non-vacuity: a concrete configuration satisfying the hypotheses and a history with a transfer, a registration,
    a vote, a notary deposit and a refused over-balance transfer; the reached state is not the trivial one *)
